@@ -36,6 +36,15 @@ Fixpoint pat_from (n : nat) (x : Z) : list Z :=
   end.
 Definition PAT (n seed : Z) : list Z := pat_from (Z.to_nat n) seed.
 
+(* (IDX n idx): message number idx of a burst, n bytes that identify the message and the offset
+   (same formula as harness/cmd/h_c20 idxBytes) *)
+Fixpoint idx_from (n : nat) (j idx : Z) : list Z :=
+  match n with
+  | O => []
+  | S k => (idx * 61 + j + (j / 256) * 13) mod 256 :: idx_from k (j + 1) idx
+  end.
+Definition IDX (n idx : Z) : list Z := idx_from (Z.to_nat n) 0 idx.
+
 (* the driver writes requests as (RQ method_raw method uri version_raw version headers body) *)
 Definition RQ := mkReq.
 
@@ -65,7 +74,10 @@ Inductive case :=
 | CE2E (m path : list Z) (hs : hdrs) (b : list Z) (rt : list route) (invoked ninv : Z)
        (seen : request) (cli : request) (cst : Z) (result : list Z)
 | CWsE2E (key digest acc : list Z) (c2s : list (list Z * list Z)) (s2c : list (list Z))
-         (srv_got cli_got : list ires).
+         (srv_got cli_got : list ires)
+  (* a burst of messages in one direction (0: client -> server, 1: server -> client) over one
+     upgraded connection, written back to back, read only after the last one was written *)
+| CWsBurst (dir : Z) (msgs : list (list Z)) (got : list ires).
 
 (* ---- helpers ---- *)
 Definition b2z (b : bool) : Z := if b then 0 else 1.
@@ -273,6 +285,8 @@ Definition corr (c : case) : Z :=
       b2z (beq acc (compute_accept_key (fun _ => digest) key)
            && all2 ires_eq srv_got (map ires_of (fst (ws_read_many (length c2s) up)))
            && all2 ires_eq cli_got (map ires_of (fst (ws_read_many (length s2c) down))))
+  | CWsBurst dir msgs got =>
+      b2z (all2 ires_eq got (map ires_of (fst (ws_read_many (length msgs) (flat_map ws_encode msgs)))))
   end.
 
 (* ---- property monitor on the implementation's outputs (written from the property text) ---- *)
@@ -328,6 +342,9 @@ Definition spec (c : case) : Z :=
                && all2 ires_eq cli_got (map IOk s2c))
       | None => 1
       end
+  | CWsBurst dir msgs got =>
+      (* every message arrives with exactly the bytes that were sent, in order *)
+      b2z (all2 ires_eq got (map IOk msgs))
   end.
 
 (* ---- non-triviality tag ---- *)
@@ -351,6 +368,7 @@ Definition tag (c : case) : Z :=
   | CUpgrade _ _ _ _ ok _ _ => if ok then 19 else 20
   | CE2E _ _ _ _ _ invoked _ _ _ _ _ => if invoked =? -1 then 22 else 21
   | CWsE2E _ _ _ _ _ _ _ => 23
+  | CWsBurst dir _ _ => 24 + dir
   end.
 
 Definition judge (c : case) : list Z := [corr c; spec c; tag c].
